@@ -150,7 +150,11 @@ func (d *JournalDS) LateCalls() []Call {
 func (d *JournalDS) Calls() int { d.mu.Lock(); defer d.mu.Unlock(); return d.calls }
 
 // Log returns a copy of the access log.
-func (d *JournalDS) Log() []Call { d.mu.Lock(); defer d.mu.Unlock(); return append([]Call(nil), d.log...) }
+func (d *JournalDS) Log() []Call {
+	d.mu.Lock()
+	defer d.mu.Unlock()
+	return append([]Call(nil), d.log...)
+}
 
 // JournalLen returns the current journal length (a crash instant).
 func (d *JournalDS) JournalLen() int { d.mu.Lock(); defer d.mu.Unlock(); return len(d.journal) }
